@@ -656,9 +656,21 @@ func subC(rc *kernel.RunCtx, k *kernel.Kernel) {
 		iomu.Unlock()
 		w.decodeFromA()
 	}
+	// how the peer ends the content part of its frames: as this implementation does, or with
+	// white space after the value (what clients built on an encoder that ends every value with a
+	// newline send; the counted content is still one JSON value)
+	peerTail := []string{"", "", "\n", " \n", "\r\n"}[t.Choose(5, "peer-content-tail")]
 	peerSend := func(v any) {
+		b, err := json.Marshal(v)
+		if err != nil {
+			panic(err)
+		}
+		tail := peerTail
+		if tail != "" && t.Chance(1, 4, "no-tail-this-time") {
+			tail = ""
+		}
 		iomu.Lock()
-		w.b2a.buf = append(w.b2a.buf, encodeFrame(v)...)
+		w.b2a.buf = append(w.b2a.buf, []byte(fmt.Sprintf("Content-Length: %d\r\n\r\n%s%s", len(b)+len(tail), b, tail))...)
 		iomu.Unlock()
 	}
 	nPeerReq := 0
